@@ -247,6 +247,43 @@ func run(c Case) vt.Verdict {
 	if !bytes.Equal(dec, x) {
 		return vt.Bad("pipeline.Remove(Apply(x)) != x (len %d vs %d, first diff %d)", len(dec), len(x), firstDiff(dec, x))
 	}
+	// (a2) a pipeline is used for chunk after chunk: encoding a second payload must not disturb the bytes returned for the
+	// first one, and decoding a second chunk must not disturb the first decoded payload
+	if v := func() *vt.Verdict {
+		bad := func(format string, a ...any) *vt.Verdict { v := vt.Bad(format, a...); return &v }
+		encSnap := append([]byte{}, enc...)
+		y := make([]byte, len(x))
+		for i := range y {
+			y[i] = x[len(x)-1-i] ^ 0x5A
+		}
+		yIn := append([]byte{}, y...)
+		enc2, err := pipe.Apply(yIn)
+		if err != nil {
+			for i, f := range c.Filters {
+				if f.K == "shuffle" && i > 0 {
+					return nil // what reaches a shuffle stage behind a compressor has a data-dependent length
+				}
+			}
+			return bad("pipeline.Apply refused a second payload of the same length: %v", err)
+		}
+		if !bytes.Equal(enc, encSnap) {
+			return bad("the bytes returned by pipeline.Apply for the first payload changed when a second payload was encoded (first diff %d of %d): output aliases filter state", firstDiff(enc, encSnap), len(enc))
+		}
+		dec1, err := pipe.Remove(append([]byte{}, enc...))
+		if err != nil || !bytes.Equal(dec1, x) {
+			return bad("first chunk no longer decodes to its payload after a second chunk was encoded: err %v", err)
+		}
+		dec2, err := pipe.Remove(append([]byte{}, enc2...))
+		if err != nil || !bytes.Equal(dec2, y) {
+			return bad("second chunk through the same pipeline does not decode to its payload: err %v (first diff %d)", err, firstDiff(dec2, y))
+		}
+		if !bytes.Equal(dec1, x) {
+			return bad("the payload returned by pipeline.Remove for the first chunk changed when a second chunk was decoded: output aliases filter state")
+		}
+		return nil
+	}(); v != nil {
+		return *v
+	}
 	if len(fs) == 0 {
 		return vt.Pass()
 	}
@@ -381,10 +418,10 @@ func firstDiff(a, b []byte) int {
 // ---- end to end through the public API ---------------------------------------------------------------
 
 type E2E struct {
-	Opts  []F   `json:"opts"` // deflate(level) shuffle fletcher in option order
-	N     int   `json:"n"`
-	Chunk int   `json:"chunk"`
-	Seed  int   `json:"seed"`
+	Opts  []F    `json:"opts"` // deflate(level) shuffle fletcher in option order
+	N     int    `json:"n"`
+	Chunk int    `json:"chunk"`
+	Seed  int    `json:"seed"`
 	Type  string `json:"type"` // f64 i32
 }
 
